@@ -277,7 +277,9 @@ def check_drop_count(ctx):
     f = ix.func(q)
     ctx.unit(f.module)
     defs_ = match.local_defs(f.node)
-    cand = [n for n, vs in defs_.items() if len(vs) == 1 and isinstance(vs[0], ast.Call) and unparse(vs[0].func) == "round" and "60" in unparse(vs[0])]
+    # the per-minute count: the local computed from 60 x (nominal rate - rate), whichever rounding function is applied to it
+    cand = [n for n, vs in defs_.items() if len(vs) == 1 and isinstance(vs[0], ast.Call) and unparse(vs[0].func).split(".")[-1] in ("round", "ceil", "floor", "int", "trunc")
+            and any(isinstance(x, ast.Constant) and x.value == 60 for x in ast.walk(vs[0])) and any(isinstance(x, ast.BinOp) and isinstance(x.op, ast.Sub) for x in ast.walk(vs[0]))]
     if len(cand) != 1:
       raise AnalysisError(f"{q}: the per-minute drop count (round(60 * (nominal - rate))) was not found")
     # the value of the drop count where it is computed, with the locals it reads replaced by what they hold there;
@@ -293,7 +295,8 @@ def check_drop_count(ctx):
         raise AnalysisError(f"{q}: the drop count `{short(expr, 60)}` leaves the evaluable subset ({e})")
       excess = 600 * (ceil(r) - r)
       ok = abs(excess - 9 * d) <= F(1, 20)
-      ctx.check(ok, "FIN-dropcount", f"{q}|rate {r}", ctx.where(f.module, defs_[cand[0]][0]), f"{d} labels dropped per minute: 9*{d} = {9 * d} vs excess {float(excess):.3f} per ten minutes",
+      # (the key names the count the code computes: a known finding about one value does not cover another)
+      ctx.check(ok, "FIN-dropcount", f"{q}|rate {r}" + ("" if ok else f" drops {d} per minute"), ctx.where(f.module, defs_[cand[0]][0]), f"{d} labels dropped per minute: 9*{d} = {9 * d} vs excess {float(excess):.3f} per ten minutes",
                 f"{r} fps is counted in drop-frame mode (denominator 1001) with {d} label(s) dropped per minute, i.e. {9 * d} per ten minutes, but its label excess is {float(excess):.3f} per ten minutes: "
                 f"labels drift against frame counts, so from_frames and to_frames are not inverse at this rate (e.g. frame 15826 -> 00:10:59;20 -> 15827)")
 
